@@ -10,8 +10,8 @@
    brought in is registered, or waiting in a frame of a thread that runs exit hooks, or in the log -
    exactly one of the three) each hook is entered at most once in any interleaving, only after its
    process has terminated and with that process's exit error, and exactly once when no thread has
-   anything left to run.  Cascade to descendants and Join are evaluated on the implementation and
-   the model by the correspondence run on complete states. *)
+   anything left to run.  C04_cascade and C04_join complete the statement: on complete states every child of a terminated
+   process is terminated, and the WaitGroup counter is zero exactly when all children are. *)
 From Coq Require Import List NArith ZArith Bool Lia.
 From Uf Require Import Process.Process Process.ProcessProofs Process.OnceProofs.
 Import ListNotations.
@@ -61,6 +61,29 @@ Theorem C04_exactly_once : forall n ops,
      if p_term (get_proc st pid) then lg st h = 1 else lg st h = 0 /\ reg st h = 1).
 Proof. exact exactly_once. Qed.
 Print Assumptions C04_exactly_once.
+
+(* exit cascades to the children (and so, level by level, to every descendant): once no thread has anything
+   left to run, every process forked from a terminated process is terminated *)
+Theorem C04_cascade : forall n ops,
+  ok_from (p_init n) ops ->
+  let st := p_run n ops in
+  (forall t, In t (threads st) -> t_frames t = []) ->
+  forall c p, c < length (procs st) -> p_parent (get_proc st c) = Some p ->
+    p_term (get_proc st p) = true -> p_term (get_proc st c) = true.
+Proof. exact cascade. Qed.
+Print Assumptions C04_cascade.
+
+(* Join waits for the children: once no thread has anything left to run, the WaitGroup counter of a process is
+   zero (Join returns) exactly when every process forked from it has terminated *)
+Theorem C04_join : forall n ops,
+  ok_from (p_init n) ops ->
+  let st := p_run n ops in
+  (forall t, In t (threads st) -> t_frames t = []) ->
+  forall p, p < length (procs st) ->
+    (p_wait (get_proc st p) = 0 <->
+     forall c, c < length (procs st) -> p_parent (get_proc st c) = Some p -> p_term (get_proc st c) = true).
+Proof. exact join_waits. Qed.
+Print Assumptions C04_join.
 
 (* non-vacuity: two threads, a fork, a concurrent Exit with another error while a hook is held,
    a hook added after termination *)
